@@ -408,7 +408,8 @@ def run_edges(case):
         pr = edges_problems(res, ost, tst)
         case.prove(p, not pr, "every supplied day reaches the sufficiency test with exactly the usage/temperature it was supplied with (first and last days included)", replay=rp)
         case.regime("last supplied days lack usage and temperature", ost[EDGE_N - 1] == "nan" and tst[EDGE_N - 1] == "nan" and res is not None)
-        case.regime("data class refused the input", res is None)
+        if res is None:
+            case.note(f"data class refused the input for usage states {ost}, temperature states {tst}")
     case.sample(dict(rows=EDGE_N, paths=len(paths)))
 
 
@@ -610,6 +611,13 @@ def ctor_catalogue():
         items.append((f"HourlyReportingData(365 days, temperature only, {tz})", lambda df=hdf[["temperature"]]: HourlyReportingData(df.copy(), is_electricity_data=True), []))
         q1 = hdf[["temperature"]][hdf.index < pd.Timestamp("2021-04-01", tz=tz)]  # January-March, whole local days
         items.append((f"HourlyReportingData(first quarter, temperature only, {tz})", lambda df=q1: HourlyReportingData(df.copy(), is_electricity_data=True), []))
+        # a period whose last local day is a 23-hour (spring-forward) day AND the last day of its month, and one ending on a 25-hour day
+        for label, a, b in (("ends on the spring-forward day 2019-03-31", "2019-01-01", "2019-04-01"), ("ends on the fall-back day 2021-10-31", "2021-08-01", "2021-11-01")):
+            eidx = pd.date_range(pd.Timestamp(a, tz="Europe/Berlin"), pd.Timestamp(b, tz="Europe/Berlin"), freq="h", inclusive="left")
+            edf = pd.DataFrame({"temperature": 50 + 10 * rng.random(len(eidx)), "observed": 1.0 + rng.random(len(eidx))}, index=eidx)
+            if tz == "Europe/Berlin":
+                items.append((f"HourlyReportingData({label})", lambda df=edf: HourlyReportingData(df.copy(), is_electricity_data=True), []))
+                items.append((f"HourlyReportingData({label}, temperature only)", lambda df=edf[["temperature"]]: HourlyReportingData(df.copy(), is_electricity_data=True), []))
         gap = hdf.copy()
         gap.iloc[24 * 40: 24 * 90, 0] = np.nan  # 50 days without temperature: under 90 % of days, and a month under 90 %
         items.append((f"HourlyBaselineData(50 days without temperature, {tz})", lambda df=gap: HourlyBaselineData(df.copy(), is_electricity_data=True),
